@@ -88,6 +88,12 @@ def generate(tier, seed):
         cases.append(("inverse_pipeline", {"norm": name, "p": _params(name, float(rng.choice([-0.5, 0.0, 0.4, 1.0, 2.0])), 0.5),
                                            "dim": int(rng.choice([1, 2, 3])), "structured": bool(rng.random() < 0.5),
                                            "stacked": bool(rng.random() < 0.5), "dseed": int(rng.integers(1 << 30))}))
+    for rep in range(8 * n):
+        name = str(rng.choice(NORMS))
+        cases.append(("vector_pipeline", {"norm": name, "p": _params(name, float(rng.choice([-0.5, 0.0, 0.4, 1.0, 2.0])), 0.5),
+                                          "dim": int(rng.choice([2, 3])), "structured": bool(rng.random() < 0.5),
+                                          "mean": str(rng.choice(["none", "scalar", "vector", "callable"])),
+                                          "trend": str(rng.choice(["none", "scalar", "vector", "callable"])), "dseed": int(rng.integers(1 << 30))}))
     return cases
 
 
@@ -466,7 +472,64 @@ def check_inverse_pipeline(ctx, c):
         ctx.fail({"what": "remove(apply(z))!=z", "norm": name}, f"{name}{p} {mt} stacked={c['stacked']}: {err:.3e}")
 
 
+def _vec_mean_trend(kind, dim, rng):
+    """Returns (argument for the API, function grid -> (dim, ...) array of the values it stands for)."""
+    if kind == "none":
+        return None, (lambda g: np.zeros_like(g))
+    if kind == "scalar":
+        v = round(float(rng.uniform(0.1, 0.5)), 3)
+        return v, (lambda g: np.full_like(g, v))
+    if kind == "vector":
+        vs = [round(float(v), 3) for v in rng.uniform(-0.3, 0.6, size=dim)]
+        return tuple(vs), (lambda g: np.stack([np.full_like(g[i], vs[i]) for i in range(dim)]))
+    co = rng.uniform(-0.04, 0.04, size=(dim, dim)).round(3)
+    off = rng.uniform(-0.2, 0.4, size=dim).round(3)
+
+    def f(*x):
+        return np.stack([off[i] + sum(co[i, j] * np.asarray(x[j]) for j in range(dim)) for i in range(dim)])
+
+    return f, (lambda g: f(*g))
+
+
+def check_vector_pipeline(ctx, c):
+    """Vector valued fields: component-wise constants and vector valued callables for mean and trend."""
+    from gstools.normalizer import apply_mean_norm_trend, remove_trend_norm_mean
+
+    rng = np.random.default_rng(c["dseed"])
+    dim, name, p = c["dim"], c["norm"], c["p"]
+    norm = getattr(gs.normalizer, name)(**p)
+    mean, fmean = _vec_mean_trend(c["mean"], dim, rng)
+    trend, ftrend = _vec_mean_trend(c["trend"], dim, rng)
+    if c["structured"]:
+        axes = [np.sort(rng.uniform(0, 5, size=int(rng.integers(2, 5)))) for _ in range(dim)]
+        pos, mt = axes, "structured"
+        grid = np.array(np.meshgrid(*axes, indexing="ij"))
+    else:
+        pos, mt = rng.uniform(0, 5, size=(dim, 9)), "unstructured"
+        grid = np.array(pos)
+    z = rng.normal(0.0, 0.1, size=grid.shape)
+    kw = dict(mean=mean, normalizer=norm, trend=trend, mesh_type=mt, value_type="vector", check_shape=False)  # shape checks are for scalar fields (Field passes False as well)
+    with warnings.catch_warnings():
+        warnings.simplefilter("ignore")
+        with np.errstate(all="ignore"):
+            f = np.asarray(apply_mean_norm_trend(pos, z.copy(), **kw), dtype=float)
+            want = ftrend(grid) + onorm.inverse(name, p, (fmean(grid) + z).ravel()).reshape(z.shape)
+            back = np.asarray(remove_trend_norm_mean(pos, np.array(f), **kw), dtype=float)
+    ctx.event("pipeline_compared")
+    ctx.cell(f"vecpipe/{name}/{mt}/mean={c['mean']}/trend={c['trend']}")
+    if not (np.all(np.isfinite(f)) and np.all(np.isfinite(want))):
+        ctx.discard("pipeline leaves the representable range")
+        return
+    mech = {"norm": name, "mean": c["mean"], "trend": c["trend"]}
+    if f.shape != z.shape or not common.maxabs(f - want) <= 1e-10 * max(1.0, common.maxabs(want)):
+        ctx.fail(dict(mech, what="vector:apply!=trend+denormalize(mean+raw)"), f"{name}{p} {mt}: shape {f.shape}, max dev {common.maxabs(f - want) if f.shape == z.shape else 'n/a'}")
+        return
+    if back.shape != z.shape or not common.maxabs(back - z) <= 1e-9:
+        ctx.fail(dict(mech, what="vector:remove(apply(z))!=z"), f"{name}{p} {mt}: per component {np.max(np.abs(back - z), axis=tuple(range(1, z.ndim))) if back.shape == z.shape else back.shape}")
+
+
 CHECKS = {
+    "vector_pipeline": check_vector_pipeline,
     "maps": check_maps,
     "loglik": check_loglik,
     "fit": check_fit,
